@@ -22,6 +22,19 @@ CLAIMED = {
              'Workbooks <= ~30 cells, histories <= 30 operations, <= 3 restarts.',
         technique=TECH + ': seeded operation histories with restart faults vs. from-scratch reference model, ddmin replay files',
         design='DESIGN.md section 3 C01'),
+    'C05': dict(
+        level='exploration',
+        text='All 24 first-evaluation orders of 4 target cells per generated workbook, each first touch and '
+             'every later re-read through a drawn access path (cell, enclosing range, unbounded column/row '
+             'range, list/tuple/generator, sheet-less address, address objects), on workbooks without stored '
+             'results, xlsx files with stored results and models loaded from yml/json/pkl; every read must '
+             'agree with every other read of that cell and with the reference model. Orders are enumerated '
+             'per workbook, workbooks and paths are sampled.',
+        note='Trusted: harness generator/driver, xlsx writer stub, reference = fresh compile evaluating each '
+             'cell once. The extent of the used area behind an unbounded range is not compared, only the '
+             'elements that are cells of the workbook. No writes (C01 owns them).',
+        technique=TECH + ': enumerated first-touch permutations x seeded access paths vs. reference model',
+        design='DESIGN.md section 3 C05'),
 }
 
 NOT_APPLICABLE = {
@@ -38,7 +51,7 @@ NOT_APPLICABLE = {
     'C20': 'text functions are pure string functions',
 }
 
-PENDING = {k: 'applicable (see DESIGN.md) but its check is not built yet in this snapshot; not claimed until it is' for k in ('C03', 'C04', 'C05', 'C06', 'C07', 'C08', 'C09', 'C12')}
+PENDING = {k: 'applicable (see DESIGN.md) but its check is not built yet in this snapshot; not claimed until it is' for k in ('C03', 'C04', 'C06', 'C07', 'C08', 'C09', 'C12')}
 
 
 def main():
